@@ -566,7 +566,7 @@ func (c *Ctx) traitTTLRule(rule string) {
 			if ev.Kind == pw.EvCall && ev.Role == "Repo:TTL" {
 				ctxTTL = ev.Results[0]
 			}
-			if ev.Kind == pw.EvFieldRead && ev.Field != nil && ev.Field.Name() == "TimeToLive" {
+			if ev.Kind == pw.EvFieldRead && ev.Field != nil && fname(ev.Field) == "TimeToLive" {
 				cfgTTL = ev.Value
 			}
 		}
